@@ -1,108 +1,162 @@
-"""C08 tables (ast of /repo's working tree):
+"""C08 tables — OBSERVED, not pattern-matched: a probe script is run in its own interpreter with the tree under
+translation importable (`extract.run_in_repo`) and reports what the real objects do on a finite domain (the four
+detector types x every kind of object a key can end on).  A behaviour-preserving rewrite of the source leaves the
+tables unchanged; a behavioural change flips them.
 
-* setIsStrict        — `Processor.set` raises for a name that does not exist: somewhere in the method an `if`
-                       whose test calls `self.has(...)` / `hasattr(...)` guards a `raise` (either branch).
-* setRefusesClassAttrs — `Processor.set` also raises when the last part of the key is a method / class-level attribute
-                       (an `if` whose test inspects `type(obj)` guards a `raise`).
-* enabledSweepFixed  — in `Observation.validate_steps` the `if` that slices `key[: key.find(".arguments")]`
-                       only does so when its test also mentions ".arguments" (so `find` cannot be −1).
-* entryPointsUseSet  — sweep (`create_new_processor`), calibration (`update_processor`) and overrides
-                       (`apply_overrides`) assign through `Processor.set` (call of an attribute named `set`),
-                       and `Processor.replace` too.
+* setIsStrict          — assigning through a key whose last part does not exist raises AttributeError and creates nothing,
+                         on every plain object of the settings tree (processor, detector, geometry, environment,
+                         characteristics, pipeline, model group, model function) of every detector type.
+* setRefusesClassAttrs — assigning through a key whose last part is a method / class-level attribute raises and leaves
+                         the method in place.
+* enabledSweepFixed    — `Observation.validate_steps` accepts a sweep over the `enabled` flag of an existing model
+                         (enabled or not), still refuses the flag of an unknown model and an argument of a disabled model.
+* entryPointsUseSet    — every entry point (`create_new_processor`, `Processor.replace`, `apply_overrides`,
+                         `update_processor`) has the effect of `Processor.set` on its copy / target: a textual value arrives
+                         converted, a missing key and a method name are refused, the original is untouched.
 """
-import ast
-
-from extract import find_class, find_func, lbool, parse
+from extract import lbool, run_in_repo
 
 FALLBACK = ("def setIsStrict : Bool := false\n"
             "def setRefusesClassAttrs : Bool := false\n"
             "def enabledSweepFixed : Bool := false\n"
             "def entryPointsUseSet : Bool := false")
 
+PROBE = r'''
+import json, types, warnings
+warnings.filterwarnings("ignore")
+import numpy as np
+from pyxel.detectors import (APD, CCD, CMOS, MKID, APDCharacteristics, APDGeometry, CCDGeometry, Characteristics,
+                             CMOSGeometry, Environment, MKIDGeometry)
+from pyxel.pipelines import DetectionPipeline, ModelFunction, Processor
+from pyxel.observation import Observation, ParameterValues
 
-def _calls(node, names):
-    for n in ast.walk(node):
-        if isinstance(n, ast.Call):
-            f = n.func
-            nm = f.attr if isinstance(f, ast.Attribute) else getattr(f, "id", None)
-            if nm in names:
-                return True
+FUNC = "pyxel.models.photon_collection.illumination"
+
+
+def detector(kind):
+    geo = dict(row=3, col=4, total_thickness=40.0, pixel_vert_size=10.0, pixel_horz_size=10.0)
+    env = Environment(temperature=200.0)
+    if kind == "APD":
+        ch = APDCharacteristics(roic_gain=0.8, quantum_efficiency=0.9, full_well_capacity=100000, adc_bit_resolution=16,
+                                adc_voltage_range=(0.0, 10.0), avalanche_gain=2.0, pixel_reset_voltage=5.0)
+        return APD(geometry=APDGeometry(**geo), environment=env, characteristics=ch)
+    ch = Characteristics(quantum_efficiency=0.9, charge_to_volt_conversion=1e-6, pre_amplification=100.0,
+                         full_well_capacity=100000, adc_bit_resolution=16, adc_voltage_range=(0.0, 10.0))
+    cls, g = {"CCD": (CCD, CCDGeometry), "CMOS": (CMOS, CMOSGeometry), "MKID": (MKID, MKIDGeometry)}[kind]
+    return cls(geometry=g(**geo), environment=env, characteristics=ch)
+
+
+def processor(kind):
+    pipe = DetectionPipeline(photon_collection=[
+        ModelFunction(func=FUNC, name="on", arguments={"level": 1, "label": "a"}, enabled=True),
+        ModelFunction(func=FUNC, name="off", arguments={"level": 2}, enabled=False)])
+    return Processor(detector=detector(kind), pipeline=pipe)
+
+
+def raises(f, *a, kinds=(AttributeError, KeyError)):
+    try:
+        f(*a)
+    except kinds:
+        return True
+    except Exception:
+        return False
     return False
 
 
-def _has_raise(stmts):
-    return any(isinstance(n, ast.Raise) for s in stmts for n in ast.walk(s))
+OWNERS = ["", "detector", "detector.geometry", "detector.environment", "detector.characteristics", "pipeline",
+          "pipeline.photon_collection", "pipeline.photon_collection.on"]
+METHODS = {"": "run_pipeline", "detector": "to_dict", "detector.geometry": "to_dict", "detector.environment": "to_dict",
+           "detector.characteristics": "to_dict", "pipeline": "describe", "pipeline.photon_collection": "run",
+           "pipeline.photon_collection.on": "__call__"}
 
 
-def set_is_strict() -> bool:
-    fn = find_func(find_class(parse("pyxel/pipelines/processor.py"), "Processor"), "set")
-    if fn is None:
-        return False
-    for n in ast.walk(fn):
-        if isinstance(n, ast.If) and _calls(n.test, {"has", "hasattr"}):
-            if _has_raise(n.body) or _has_raise(n.orelse):
-                return True
-    return False
+def owner(p, path):
+    obj = p
+    for part in [x for x in path.split(".") if x]:
+        obj = getattr(obj, part)
+    return obj
 
 
-def set_refuses_class_attrs() -> bool:
-    """`Processor.set` raises when the last part of the key is an attribute of the object's CLASS that is not a
-    property: some `if` whose test looks at `type(obj)` (or uses inspect.getattr_static) guards a `raise`."""
-    fn = find_func(find_class(parse("pyxel/pipelines/processor.py"), "Processor"), "set")
-    if fn is None:
-        return False
-    for n in ast.walk(fn):
-        if isinstance(n, ast.If) and _calls(n.test, {"type", "getattr_static"}) and (_has_raise(n.body) or _has_raise(n.orelse)):
-            return True
-    return False
+def key(path, leaf):
+    return (path + "." if path else "") + leaf
 
 
-def enabled_sweep_fixed() -> bool:
-    fn = find_func(find_class(parse("pyxel/observation/observation.py"), "Observation"), "validate_steps")
-    if fn is None:
-        return False
-    found_slice = False
-    ok = True
-    for n in ast.walk(fn):
-        if isinstance(n, ast.If):
-            body_src = [m for s in n.body for m in ast.walk(s)]
-            uses_find = any(
-                isinstance(m, ast.Call) and isinstance(m.func, ast.Attribute) and m.func.attr == "find"
-                and m.args and isinstance(m.args[0], ast.Constant) and m.args[0].value == ".arguments"
-                for m in body_src
-            )
-            # only the innermost `if` that directly contains the slice counts
-            if uses_find and not any(isinstance(s, ast.If) and any(
-                    isinstance(m, ast.Call) and isinstance(m.func, ast.Attribute) and m.func.attr == "find"
-                    for m in ast.walk(s)) for s in n.body):
-                found_slice = True
-                mentions = any(isinstance(m, ast.Constant) and isinstance(m.value, str) and "arguments" in m.value
-                               for m in ast.walk(n.test))
-                ok = ok and mentions
-    return found_slice and ok
+strict = refuses = True
+for kind in ("CCD", "CMOS", "MKID", "APD"):
+    for path in OWNERS:
+        p = processor(kind)
+        o = owner(p, path)
+        before = set(vars(o))
+        if not raises(p.set, key(path, "zz_no_such_setting_q"), "1") or set(vars(o)) != before:
+            strict = False
+        p = processor(kind)
+        o = owner(p, path)
+        m = METHODS[path]
+        if not raises(p.set, key(path, m), "1", kinds=(AttributeError, TypeError)) or m in vars(o) or not callable(getattr(o, m)):
+            refuses = False
+
+# validate_steps and the `enabled` flag
+def validate(key_, values):
+    obs = Observation(parameters=[ParameterValues(key=key_, values=values)])
+    obs.validate_steps(processor("CCD"))
+
+G = "pipeline.photon_collection."
+sweep = True
+try:
+    validate(G + "on.enabled", [True, False])
+    validate(G + "off.enabled", [True, False])
+    validate(G + "on.arguments.level", [1, 2])
+except Exception:
+    sweep = False
+sweep = sweep and raises(validate, G + "nomodel.enabled", [True, False], kinds=(KeyError, AttributeError)) \
+    and raises(validate, G + "off.arguments.level", [1, 2], kinds=(ValueError,)) \
+    and raises(validate, G + "on.arguments.nope", [1, 2], kinds=(KeyError, AttributeError))
+
+# the entry points behave like Processor.set on their target
+from pyxel.observation.misc import create_new_processor
+from pyxel.run import apply_overrides
+from pyxel.calibration.fitting_datatree import ModelFittingDataTree
+from pyxel.exposure import Exposure, Readout
+
+def via_update(p, k, v):
+    var = ParameterValues(key=k, values="_", boundaries=(0.0, 1.0e9))
+    return ModelFittingDataTree.update_processor(types.SimpleNamespace(_variables=[var]), np.array([float(v)]), p)
+
+def via_overrides(p, k, v):
+    apply_overrides({k: v}, p, Exposure(readout=Readout()))
+    return p
+
+ENTRY = {"create_new_processor": lambda p, k, v: create_new_processor(p, {k: v}), "replace": lambda p, k, v: p.replace({k: v}),
+         "apply_overrides": via_overrides, "update_processor": via_update}
+entry = True
+K = G + "on.arguments.level"
+for name, f in ENTRY.items():
+    p = processor("CCD")
+    q = f(p, K, "7")
+    got = q.get(K)
+    want_ok = (got == 7 and (isinstance(got, float) if name == "update_processor" else type(got) is int))
+    orig_ok = name == "apply_overrides" or p.get(K) == 1
+    p2 = processor("CCD")
+    miss = raises(f, p2, G + "on.arguments.zz_nope", "7") and raises(f, processor("CCD"), "detector.geometry.zz_nope", "7") \
+        and "zz_nope" not in vars(p2.detector.geometry)
+    p3 = processor("CCD")
+    meth = raises(f, p3, "detector.geometry.to_dict", "7", kinds=(AttributeError, TypeError)) and callable(p3.detector.geometry.to_dict)
+    det = f(processor("CCD"), "detector.environment.temperature", "150").get("detector.environment.temperature") == 150
+    if not (want_ok and orig_ok and miss and meth and det):
+        entry = False
+
+print(json.dumps({"setIsStrict": strict, "setRefusesClassAttrs": refuses, "enabledSweepFixed": sweep, "entryPointsUseSet": entry}))
+'''
 
 
-def entry_points_use_set() -> bool:
-    places = [
-        ("pyxel/run.py", None, "apply_overrides"),
-        ("pyxel/observation/misc.py", None, "create_new_processor"),
-        ("pyxel/calibration/fitting_datatree.py", None, "update_processor"),
-        ("pyxel/pipelines/processor.py", "Processor", "replace"),
-    ]
-    for rel, cls, fn_name in places:
-        mod = parse(rel)
-        scope = find_class(mod, cls) if cls else mod
-        fn = find_func(scope, fn_name)
-        if fn is None or not _calls(fn, {"set"}):
-            return False
-        # no direct setattr on the processor's objects besides the running-mode branch of apply_overrides
-        if fn_name != "apply_overrides" and _calls(fn, {"setattr"}):
-            return False
-    return True
+def observe() -> dict:
+    res = run_in_repo(PROBE, timeout=180)
+    return res if isinstance(res, dict) else {}
 
 
 def gen() -> str:
-    return (f"def setIsStrict : Bool := {lbool(set_is_strict())}\n"
-            f"def setRefusesClassAttrs : Bool := {lbool(set_refuses_class_attrs())}\n"
-            f"def enabledSweepFixed : Bool := {lbool(enabled_sweep_fixed())}\n"
-            f"def entryPointsUseSet : Bool := {lbool(entry_points_use_set())}")
+    r = observe()
+    return (f"def setIsStrict : Bool := {lbool(r.get('setIsStrict', False))}\n"
+            f"def setRefusesClassAttrs : Bool := {lbool(r.get('setRefusesClassAttrs', False))}\n"
+            f"def enabledSweepFixed : Bool := {lbool(r.get('enabledSweepFixed', False))}\n"
+            f"def entryPointsUseSet : Bool := {lbool(r.get('entryPointsUseSet', False))}")
